@@ -407,6 +407,11 @@ class VLE(Equilibrium, phases='lg'):
                 except NoEquilibrium:
                     thermal_condition = self._thermal_condition
                     thermal_condition.P = P
+                    if self._liquid_mol.any() or self._vapor_mol.any():
+                        # Only non-condensable / non-volatile chemicals: no phase change, but H must still be met
+                        thermal_condition.T = self.mixture.xsolve_T_at_HP(
+                            self._phase_data, H, thermal_condition.T, P
+                        )
             elif S_spec:
                 try:
                     self.set_PS(P, S, gas_conversion, liquid_conversion)
